@@ -82,9 +82,18 @@ pub enum Step {
     Extra(usize),
 }
 
+/// A second transport whose deliveries are explorer steps as well (the byte pipes under the real tungstenite
+/// WebSocket, `bytepipe.rs`). When one is installed the endpoints do not use `link` (it stays empty) and
+/// `Step::Deliver(d)` means "deliver on direction d of that transport".
+pub trait ByteXport {
+    fn can_deliver(&self, dir: usize) -> bool;
+    fn deliver(&self, dir: usize);
+}
+
 pub struct Sim {
     pub tasks: Vec<TaskSlot>,
     pub link: Link,
+    pub xport: Option<Rc<dyn ByteXport>>,
     pub spawner: Spawner,
     pub steps: u64,
     pub log: Vec<Step>,
@@ -137,6 +146,7 @@ impl Sim {
         Self {
             tasks: Vec::new(),
             link,
+            xport: None,
             spawner: Spawner::default(),
             steps: 0,
             log: Vec::new(),
@@ -205,7 +215,7 @@ impl Sim {
             }
         }
         for d in 0..2 {
-            if self.link.can_deliver(d) {
+            if self.link.can_deliver(d) || self.xport.as_ref().is_some_and(|x| x.can_deliver(d)) {
                 v.push(Step::Deliver(d));
             }
         }
@@ -298,7 +308,13 @@ impl Sim {
                 self.poll_task(*i);
                 None
             }
-            Step::Deliver(d) => self.link.deliver(*d),
+            Step::Deliver(d) => match &self.xport {
+                Some(x) => {
+                    x.deliver(*d);
+                    None
+                }
+                None => self.link.deliver(*d),
+            },
             Step::Extra(_) => None,
         }
     }
